@@ -4745,6 +4745,10 @@ func (l *Lowerer) lowerSwitchCaseValue(expr parser.Expr) (ir.SwitchValue, error)
 func (l *Lowerer) evalConstAssert(condition parser.Expr) error {
 	val, ok := l.tryEvalConstantBool(condition)
 	if !ok {
+		// An expression that cannot be evaluated here must at least name things that exist.
+		if name, found := l.firstUndeclaredIdent(condition); found {
+			return fmt.Errorf("const_assert: unresolved identifier: %s", name)
+		}
 		// Cannot evaluate — silently accept. Full constant evaluator would
 		// handle select(), all(), float comparisons etc. For now we only
 		// enforce the evaluable subset (bool literals, int comparisons,
@@ -4755,6 +4759,66 @@ func (l *Lowerer) evalConstAssert(condition parser.Expr) error {
 		return fmt.Errorf("const_assert failed")
 	}
 	return nil
+}
+
+// firstUndeclaredIdent returns the first identifier used as a value in e that names
+// no local, constant, override or module-scope variable.
+func (l *Lowerer) firstUndeclaredIdent(e parser.Expr) (string, bool) {
+	switch x := e.(type) {
+	case *parser.Ident:
+		name := x.Name
+		if _, ok := l.locals[name]; ok {
+			return "", false
+		}
+		if _, ok := l.localAbstractASTs[name]; ok {
+			return "", false
+		}
+		if _, ok := l.abstractConstants[name]; ok {
+			return "", false
+		}
+		if _, ok := l.moduleConstants[name]; ok {
+			return "", false
+		}
+		if _, ok := l.moduleOverrides[name]; ok {
+			return "", false
+		}
+		if _, ok := l.globals[name]; ok {
+			return "", false
+		}
+		if _, ok := l.inlineConstants[name]; ok {
+			return "", false
+		}
+		return name, true
+	case *parser.BinaryExpr:
+		if n, found := l.firstUndeclaredIdent(x.Left); found {
+			return n, true
+		}
+		return l.firstUndeclaredIdent(x.Right)
+	case *parser.UnaryExpr:
+		return l.firstUndeclaredIdent(x.Operand)
+	case *parser.IndexExpr:
+		if n, found := l.firstUndeclaredIdent(x.Expr); found {
+			return n, true
+		}
+		return l.firstUndeclaredIdent(x.Index)
+	case *parser.MemberExpr:
+		return l.firstUndeclaredIdent(x.Expr)
+	case *parser.CallExpr:
+		for _, a := range x.Args {
+			if n, found := l.firstUndeclaredIdent(a); found {
+				return n, true
+			}
+		}
+	case *parser.ConstructExpr:
+		for _, a := range x.Args {
+			if n, found := l.firstUndeclaredIdent(a); found {
+				return n, true
+			}
+		}
+	case *parser.BitcastExpr:
+		return l.firstUndeclaredIdent(x.Expr)
+	}
+	return "", false
 }
 
 // tryEvalConstantBool tries to evaluate an expression as a constant boolean.
